@@ -1,6 +1,7 @@
 // C06 -- batch limit accounting and Batched::batch_from (greedy, order preserving, never empty, limit respected)
 use vstd::prelude::*;
 verus! {
+//@include specs/std_extra.rs
 // ---------------------------------------------------------------- trusted prelude
 /// the size an item reports (`ItemSize::size`), as a pure function of the item
 pub uninterp spec fn item_size_ref<T: ?Sized>(t: &T) -> usize;
